@@ -1,8 +1,8 @@
 package main
 
 import (
-	"regexp"
 	"fmt"
+	"regexp"
 	"sort"
 	"strings"
 
@@ -11,10 +11,10 @@ import (
 
 func init() {
 	register(&ruleSet{
-		id:         "C02",
-		title:      "rules run in awk order",
-		run:        runC02,
-		decided:    "the ordering skeleton of the schedule: rules are partitioned by kind into five lists in source order; BEGIN rules run before the file loop, END rules after it; per file, per decoded value ($file published first), per selected root in selector order: BEGINFILE rules, then the pattern rules, then ENDFILE rules; $ is bound (ruleRoot stored) before each rule evaluation with the documented cell; for an array root the pattern rules run once per element in index order with $ = the element and $index = its position, otherwise exactly once with $ = the root; within one element the rules run in list order, a body runs iff its pattern is absent or truthy, next ends the rule list for the element and exit returns success from every driver without evaluating anything further." +
+		id:    "C02",
+		title: "rules run in awk order",
+		run:   runC02,
+		decided: "the ordering skeleton of the schedule: rules are partitioned by kind into five lists in source order; BEGIN rules run before the file loop, END rules after it; per file, per decoded value ($file published first), per selected root in selector order: BEGINFILE rules, then the pattern rules, then ENDFILE rules; $ is bound (ruleRoot stored) before each rule evaluation with the documented cell; for an array root the pattern rules run once per element in index order with $ = the element and $index = its position, otherwise exactly once with $ = the root; within one element the rules run in list order, a body runs iff its pattern is absent or truthy, next ends the rule list for the element and exit returns success from every driver without evaluating anything further." +
 			" Each BEGIN / END rule gets a fresh $ cell created inside the rule loop; EvalProgram reports success only on an `exit` edge or after the END loop (no early success return that skips input or rules); the -r selectors are accumulated complete and in order." +
 			" No frame is leaked when `next` leaves a function body, so rules keep running for every element.",
 		notDecided: "multiplicities for concrete inputs (they follow from Go's range semantics and encoding/json, trusted) and the interaction with user programs.",
@@ -28,6 +28,7 @@ func runC02(c *Ctx) {
 	c02R4(c)
 	c.shared("R6", "C08/R1", "rules keep running for every element: a `next` (or any other way out of a function body) leaves no frame behind, otherwise a long input ends in a spurious `call depth limit exceeded` and the remaining elements and END rules are never reached", keyHas("balance "), func(s *Ctx) { c08R1(s, discoverFrameModel(s.P)) })
 	c.shared("R5", "C14/R2", "the -r selectors reach the interpreter complete and in the order given: multiFlag.Set appends, Run passes the accumulated slice", keyHas("selector"), c14R2)
+	c.shared("R7", "C14/R2", "the rules run for each file in the order given: the command line passes every named file, in order, as the file itself, and standard input only when no file was named", keyHas("input-file", "stdin-only-without-files"), c14R2)
 }
 
 var rulePartition = map[string]string{"BeginRule": "beginRules", "BeginFileRule": "beginFileRules", "EndRule": "endRules", "EndFileRule": "endFileRules", "PatternRule": "patternRules"}
